@@ -84,12 +84,12 @@ def _tdiv(a, b):
 _WRITES = {}
 
 
-def writes_int_memory(fb, usr, depth=0):
-    """May a call of the function with this USR store to an integer object that is not one of its own locals?
-    (syntactic summary over the bodies in the fact base, callees followed three levels; unknown => True)"""
+def writes_int_memory(fb, usr, depth=0, any_type=False):
+    """May a call of the function with this USR store to an integer object (any_type: to any object) that is not one of
+    its own locals?  (syntactic summary over the bodies in the fact base, callees followed three levels; unknown => True)"""
     if not usr or fb is None:
         return True
-    key = (id(fb), usr)
+    key = (id(fb), usr, any_type)
     if key in _WRITES:
         return _WRITES[key]
     bodies = [g for g in fb.by_usr.get(usr, []) if g.has_cfg]
@@ -114,16 +114,16 @@ def writes_int_memory(fb, usr, depth=0):
                     for p in g.params:
                         if p['d'] == m['d']:
                             dt = p['tC']
-                    if dt is not None and dt.rstrip().endswith('&') and type_range(m.get('t')) is not None:
-                        res = True       # integer reference parameter
-                elif type_range(m.get('t')) is not None:
+                    if dt is not None and dt.rstrip().endswith('&') and (any_type or type_range(m.get('t')) is not None):
+                        res = True       # (integer) reference parameter
+                elif any_type or type_range(m.get('t')) is not None:
                     res = True
             elif k in ('call', 'construct'):
                 q = n.get('q', '')
                 if 'cv' in n or q in PURE_CALLS or q.startswith('std::numeric_limits::') or q.startswith('__builtin_') \
                         or (k == 'construct' and not n.get('args')):
                     continue
-                if writes_int_memory(fb, n.get('u'), depth + 1):
+                if writes_int_memory(fb, n.get('u'), depth + 1, any_type):
                     res = True
             elif k in ('new', 'delete'):
                 res = True
@@ -734,6 +734,15 @@ class Interp:
                         if iv is not None:
                             st[key] = iv if inside(iv, r) else r
             return None
+        if k == 'call' and n.get('q', '').rsplit('::', 1)[-1] == 'isspace' and len(n.get('args', []) or []) == 1 and 'cv' not in n:
+            # C locale white space: '\t' '\n' '\v' '\f' '\r' (9..13) and ' ' (32); the result is only ever tested for != 0
+            c = sub(n['args'][0])
+            if c is not None:
+                if (9 <= c[0] and c[1] <= 13) or c == (32, 32):
+                    return (1, 2 ** 31 - 1)
+                if c[1] < 9 or (13 < c[0] and c[1] < 32) or c[0] > 32:
+                    return (0, 0)
+            return type_range(t)
         if k == 'call' and n.get('q') in ('std::array::operator[]', 'std::array::at') and n.get('args') and n.get('recv') is not None:
             tab = self.const_array(n['recv'])
             if tab is not None and type_range(t) is not None:
@@ -748,8 +757,9 @@ class Interp:
                 if not (default_init or q in PURE_CALLS or q.startswith('std::numeric_limits::') or q.startswith('__builtin_')):
                     if writes_int_memory(fn.fb, n.get('u')):
                         self.kill_memory(st, calls=True)
-                    else:
-                        # callee stores to no integer object: only what is read through its pointer arguments can change
+                    elif writes_int_memory(fn.fb, n.get('u'), any_type=True):
+                        # callee stores to no integer object but may redirect a pointer (`*s = str`): only what is read
+                        # through its pointer arguments can change; a callee that stores nothing at all changes nothing
                         ds = set()
                         for a in [n.get('recv')] + list(n.get('args', []) or []):
                             if a is None:
